@@ -91,6 +91,9 @@ static void op_outer(void) {
     double d = 0; for (int i = 0; i < m; i++) for (int j = 0; j < n; j++) d = fmax(d, fabs(r->data[i][j] - a->data[i] * b->data[j]));
     vx_check(d == 0, key, "(%d,%d): outer product differs by %g", m, n, d);
     vx_outcome(hm_hash(r, 21));
+    { matrix *r2; initMatrix(&r2); MatrixCopy(r, &r2);          /* assigned outputs: calling again into the filled output changes nothing */
+      if (which == 0) RowColOuterProduct(a, b, r); else DVectorTrasposedDVectorDotProduct(a, b, r);
+      vx_transition(1); vx_check(hm_maxdiff(r, r2) == 0, "reuse|outer-product|same-shape", "%s (%d,%d): second call into the same output differs", nm, m, n); DelMatrix(&r2); }
   } else vx_outcome((uint64_t)(1000 + which));
   DelDVector(&a); DelDVector(&b); DelMatrix(&r);
 }
@@ -167,6 +170,13 @@ static void op_stats(void) {
       ld *ev = calloc((size_t)n, sizeof(ld)); rm_jacobi_eig(lc, ev, NULL);
       vx_check((double)ev[n - 1] >= -tol * n, anyflush ? "law|covariance-PSD|abs(colsum)<1e-6" : "law|covariance-PSD", "(%d,%d): min eigenvalue %Lg", m, n, ev[n - 1]);
       vx_outcome(hm_hash(cm, 41));
+      /* the covariance is assigned, not accumulated: a second call into the same (already filled) output, and a call into
+       * an output that held the covariance of another matrix, must give the same matrix */
+      { matrix *c2; initMatrix(&c2); MatrixCopy(cm, &c2); MatrixCovariance(a, cm); vx_transition(1);
+        vx_check(hm_maxdiff(cm, c2) == 0, "reuse|MatrixCovariance|same-shape", "(%d,%d): second call into the same output differs by %g", m, n, hm_maxdiff(cm, c2));
+        matrix *c3 = hm_new(n + 1, n + 1, NULL); MatrixSet(c3, 3.0); MatrixCovariance(a, c3); vx_transition(1);
+        vx_check(hm_maxdiff(c3, c2) == 0, "reuse|MatrixCovariance|other-shape", "(%d,%d): call into an output of another shape differs by %g", m, n, hm_maxdiff(c3, c2));
+        DelMatrix(&c2); DelMatrix(&c3); }
       free(ev); free(mu); rm_free(rc); rm_free(lc);
     }
     DelMatrix(&cm);
